@@ -5,6 +5,7 @@ C06 — results do not depend on the units in which inputs are written (E1, rela
 (c) `Units:<output>, U` for every output parameter x convertible catalogue unit: pre-print results identical, every report
     line denotes the same quantity as in the base report, and lines that changed carry the requested unit.
 """
+import itertools
 import math
 import os
 import sys
@@ -184,6 +185,47 @@ def input_task(payload):
     return res
 
 
+def inpair_task(payload):
+    res = check.new_result()
+    rn = rel.Runner(res)
+    lines = payload['lines']
+    for n1, r1, v1, (U1, w1), n2, r2, v2, (U2, w2) in payload['pairs']:
+        rest = [l for l in lines if l.split(',')[0].strip() not in (n1, n2)]
+        bb = rn.run(rest + [f'{n1}, {v1!r}', f'{n2}, {v2!r}'], tagname=f'{n1} & {n2} in declared units')
+        if bb is None:
+            continue
+        st, o = rel.observe(rest + [f'{n1}, {w1!r} {U1}', f'{n2}, {w2!r} {U2}'])
+        res['execs'] += 1
+        res['steps'] += 1
+        d = check.digest([payload['fam_id'], n1, U1, n2, U2])
+        res['states'].append(d)
+        if st == 'infra':
+            res['infra'].append(str(o))
+            continue
+        ctx = f'[{payload["fam_id"]}] "{n1}, {w1} {U1}" together with "{n2}, {w2} {U2}" (= {v1} {r1["decl"]} and {v2} {r2["decl"]})'
+        if st == 'rejected':
+            res['not_accepted'] += 1
+            check.fail(res, f'inputs_together/rejected/{r1["utype"]}/{n1}/{n2}', f'{ctx} is rejected: {str(o.get("exc"))[:200]}')
+            continue
+        res['accepted'] += 1
+        res['nontrivial'].append(d)
+        bad = snap.diff(bb['hook']['out'], o['hook']['out'], 1e-7, 1e-12)
+        if bad:
+            stc, oc = rel.observe(rest + [f'{n1}, {v1 * (1 + 1e-12)!r}', f'{n2}, {v2 * (1 + 1e-12)!r}'])
+            res['execs'] += 1
+            if stc == 'ok':
+                ctl = oc['hook']['out']
+                bad = [k for k in bad if k not in ctl or k not in o['hook']['out'] or k not in bb['hook']['out']
+                       or reldev(bb['hook']['out'][k], o['hook']['out'][k]) > 100 * reldev(bb['hook']['out'][k], ctl[k]) + 1e-7]
+        if bad:
+            k0 = bad[0]
+            check.fail(res, f'inputs_together/results_differ/{r1["utype"]}/{n1}/{n2}', f'{ctx} changes {len(bad)} results, e.g. {k0}: '
+                       f'{str(bb["hook"]["out"].get(k0))[:60]} -> {str(o["hook"]["out"].get(k0))[:60]}')
+    if payload['pairs']:
+        res['sample'] = {'inputs_together': {'family': payload['fam_id'], 'first': payload['pairs'][0][0], 'second': payload['pairs'][0][4]}}
+    return res
+
+
 def output_task(payload):
     res = check.new_result()
     rn = rel.Runner(res)
@@ -244,7 +286,23 @@ def output_task(payload):
     return res
 
 
+def basefail_task(payload):
+    res = check.new_result()
+    res['execs'] += 1
+    st, o = rel.observe(payload['lines'])
+    if st == 'ok':
+        res['infra'].append(f'parameter discovery failed for family {payload["fam_id"]} although its base runs: {payload["error"]}')
+    else:
+        check.fail(res, f'family/base_not_accepted/{payload["fam_id"]}', f'the base input of family {payload["fam_id"]} (accepted on the pinned tree; its lines carry units such as '
+                   f'"2.4 kilometer") is not accepted: {payload["error"]}')
+    return res
+
+
 def task(payload):
+    if payload['kind'] == 'basefail':
+        return basefail_task(payload)
+    if payload['kind'] == 'inpair':
+        return inpair_task(payload)
     return input_task(payload) if payload['kind'] == 'in' else output_task(payload)
 
 
@@ -286,7 +344,10 @@ def plan(tier, seed):
     for fam_id, lines in family_list(tier):
         tag = runner.fork_exec(discover, (fam_id, lines), timeout=300)
         if tag[0] != 'ok':
-            raise RuntimeError(f'discovery failed for {fam_id}: {tag[1]} {tag[2] if len(tag) > 2 else ""}')
+            # the family bases are accepted inputs (several carry units themselves, e.g. '2.4 kilometer'): a base that can no longer be read
+            # is reported as a violation by the task below, not as a harness failure
+            P.append({'kind': 'basefail', 'fam_id': fam_id, 'lines': lines, 'error': f'{tag[1]}'[:300]})
+            continue
         params, outs = tag[1]['params'], tag[1]['outputs']
         base_vals = {l.split(',', 1)[0].strip(): l.split(',', 1)[1].strip() for l in lines if ',' in l}
         probes = []
@@ -323,6 +384,24 @@ def plan(tier, seed):
                 npairs += len(variants)
         for i in range(0, len(probes), 3):
             P.append({'kind': 'in', 'fam_id': fam_id, 'lines': lines, 'probes': probes[i:i + 3]})
+        # two unit-carrying inputs of one unit type whose declared units differ (depth in km, fracture height in m, diameters in inch ...), written
+        # together: one conversion must not influence the other. Unit types whose single-input variants work on the pinned tree only.
+        if fam_id.startswith('std'):
+            by_type = {}
+            for name, rec, v, variants in probes:
+                if rec['utype'] in ('LENGTH', 'PRESSURE', 'TEMPERATURE', 'TIME') and name in base_vals:
+                    by_type.setdefault(rec['utype'], {}).setdefault(UR.norm(rec['decl']), []).append((name, rec, v, variants))
+            pairs = []
+            for ut, clusters in sorted(by_type.items()):
+                reps = [sorted(c, key=lambda x: x[0])[0] for _, c in sorted(clusters.items())]
+                if ut == 'LENGTH':      # several representatives per declared unit: lengths are the type with the most different internal units
+                    reps = [x for _, c in sorted(clusters.items()) for x in sorted(c, key=lambda y: y[0])[:2]]
+                for a, b in itertools.permutations(reps, 2):
+                    if UR.norm(a[1]['decl']) == UR.norm(b[1]['decl']) and ut != 'TEMPERATURE':
+                        continue
+                    pairs.append([a[0], a[1], a[2], a[3][0], b[0], b[1], b[2], b[3][0]])
+            for i in range(0, len(pairs), 4):
+                P.append({'kind': 'inpair', 'fam_id': fam_id, 'lines': lines, 'pairs': pairs[i:i + 4]})
         directives = []
         for oname, ocur2 in sorted(outs.items()):
             ocur = ocur2[0]
